@@ -7,7 +7,7 @@ Line protocol of the C11 driver (stateful: one stream writer at a time).
   new <hex prolog> <hex pre> <nStyles>   NewStreamWriter
   setrow <hex cell> <opts> <item>*       SetRow; opts = `-` | style,h4,outline,hidden
         item = n | i<int> | b0 | b1 | T<0|1>;<hex text>;<nf22 id> (time) | f<hex text> | s<hex> | R<hex xml> | RE | C<style>,<hex formula>,<item>
-  merge <hex> <hex> | colwidth a b w4 <hex pre> | colstyle a b st <hex pre> | panes <0|1> <hex pre>
+  merge <hex> <hex> | colwidth a b w4 <hex pre> | colstyle a b st <hex pre> | panes 0 <hex sv> (nil options) | panes2 <freeze> <split> <x> <y> <hex topLeft> <hex activePane> <hex viewAttrs> <hex f5> (<hex activeCell> <hex pane> <hex sqref>)*
   reader | flush <hex tableParts> <hex field 0> … <hex field 42>   (per-field rendering of xlsxWorksheet)
   bwnew <n> | bwrow <n> | bwflush        the buffered writer on sizes only (large volumes)
   trees                                  canonical element trees of all written cells: as writeCell wrote them (w) and as
@@ -40,6 +40,7 @@ partial def parseVal (s : List Char) : Option Val :=
   | 'f' :: r => (unhexS (String.ofList r)).map Val.num
   | 's' :: r => (unhexS (String.ofList r)).map Val.str
   | ['R', 'E'] => some .richErr
+  | 'D' :: r => (unhexS (String.ofList r)).map (fun t => Val.dur t 0)
   | 'T' :: r =>
     match (String.ofList r).splitOn ";" with
     | [n, t, nf] =>
@@ -76,6 +77,10 @@ def allSome {α} : List (Option α) → Option (List α)
   | none :: _ => none
   | some a :: r => (allSome r).map (a :: ·)
 
+def triples : List Bytes → List (Bytes × Bytes × Bytes)
+  | a :: b :: c :: r => (a, b, c) :: triples r
+  | _ => []
+
 def parseOp (w : List String) : Option Op :=
   match w with
   | "setrow" :: cell :: opts :: items =>
@@ -95,6 +100,12 @@ def parseOp (w : List String) : Option Op :=
     | some a, some b, some st, some pre => some (.colStyle a b st pre)
     | _, _, _, _ => none
   | ["panes", ok, pre] => (unhexS pre).map (Op.panes (ok = "1"))
+  | "panes2" :: fr :: sp :: xs :: ys :: tl :: ap :: va :: f5 :: sel =>
+    -- SetPanes with options: fields 4..5 are rendered by the model (`panesSV`) from the options
+    match xs.toInt?, ys.toInt?, unhexS tl, unhexS ap, unhexS va, unhexS f5, allSome (sel.map unhexS) with
+    | some xs, some ys, some tl, some ap, some va, some f5, some sel =>
+      some (.panes true (panesSV va f5 (PaneOpts.mk (fr == "1") (sp == "1") xs ys tl ap (triples sel))))
+    | _, _, _, _, _, _, _ => none
   | ["reader"] => some .reader
   | "flush" :: tp :: fs =>
     match unhexS tp, allSome (fs.map unhexS) with
